@@ -5,7 +5,7 @@ import os
 
 class Log(object):
     """Per-execution record of what the environment did."""
-    __slots__ = ('reads', 'starved', 'seeks', 'bad_seek', 'steps')
+    __slots__ = ('reads', 'starved', 'seeks', 'bad_seek', 'steps', 'last_short')
 
     def __init__(self):
         self.reads = 0
@@ -13,6 +13,7 @@ class Log(object):
         self.seeks = 0
         self.bad_seek = None
         self.steps = 0
+        self.last_short = False   # the most recent read returned some but fewer octets than requested
 
 
 class ScheduledCore(object):
@@ -61,6 +62,7 @@ class ScheduledCore(object):
                 self.log.starved = True    # short at true end: decoder will retry and get EOF
             out = self.data[self.pos:self.pos + want]
             self.pos += want
+            self.log.last_short = bool(n is not None and n >= 0 and 0 < want < n)
             return out
         avail = total - self.pos
         want = avail if (n is None or n < 0) else min(n, avail)
